@@ -434,8 +434,17 @@ def run(tier, seed):
     import concurrent.futures as _cf
     scs = [c04.gen_scenario(s_) for s_ in [seed * 100000 + 70000 + i for i in range(40 if tier == "quick" else 400)]]
     with _cf.ThreadPoolExecutor(16) as ex:
-        list(ex.map(c04.run_scenario, scs))
+        outs = list(ex.map(c04.run_scenario, scs))
     c04.sys_tie(res, scs)
+    # the same histories against the ghost oracle, for this property's direction only: a line the note or
+    # blame credits to a session although no session made its last substantive change (unclassified cases
+    # only; the classified families have their own entries under C01/C04)
+    for sc, (failures, _n, _c) in zip(scs, outs):
+        for sig, d in failures:
+            if sig in ("note-lists-non-ai-line", "note-wrong-lines", "blame-reports-non-ai-line", "blame-wrong-lines") and d.get("extra"):
+                res.oracle_failure("person-line-credited-to-session:commit-history",
+                                   {"scenario": {k: v for k, v in sc.items() if not k.startswith("_")}, "detail": d},
+                                   what="a line whose last substantive change was not a session's is listed for a session")
     n = 64 if tier == "quick" else 2000
     phase_walks(res, [seed * 100000 + i for i in range(n)], 25 if tier == "quick" else 40)
     return res.finish()
